@@ -17,8 +17,8 @@ func init() {
 		Title: "XPath queries over the node tree agree with a reference XML DOM",
 		Explanation: "The hand-written navigator is correct only under a representation invariant established by the readers; that cross-module contract is checked. " +
 			"R11a attributes are packed first and created in one place: every flow of the constant idr.AttributeNode into a node-creating call or into Node.Type, anywhere in the repository, must be an advance call of a stream reader inside the type case encoding/xml.StartElement; for each such site (1) walking backwards without crossing a token fetch reaches the advance call that attached the element itself, (2) on every path from the element's attachment to the attribute's no other child was attached to the element, the cursor was not moved away and the candidate check (which evaluates xpath over the element) has not yet run, (3) after the attribute the cursor is restored to the element (cur = cur.Parent) before the next attribute / candidate check / token fetch / return; " +
-			"R11b node-type exhaustiveness: the NodeType method of every xpath.NodeNavigator implementation in package idr compares the node's type with every declared constant of idr.NodeType; every NodeType value passed to a function or stored into Node.Type in the repository is a declared constant or a forwarded parameter, and Node.Type is stored only by the node API of package idr; " +
-			"R11c attribute text is excluded from the string-value: in Node.InnerText (and its closures) every use of a node obtained through a child/sibling link - recursion, text capture - is dominated by the not-AttributeNode edge of a test of that node's Type.",
+			"R11b node-type exhaustiveness: the NodeType method of every xpath.NodeNavigator implementation in package idr compares the node's type with every declared constant of idr.NodeType - in the method itself or in a helper of package idr the node's Type is handed to (parameter binding, depth <= 3; the method is then interpreted with the cursor on a node of that type and must return rather than panic); every NodeType value passed to a function or stored into Node.Type in the repository is a declared constant, a forwarded parameter or the Type of an existing node, and Node.Type is stored only by the node API of package idr; " +
+			"R11c attribute text is excluded from the string-value: in Node.InnerText (its closures and the functions of package idr it statically calls, transitively) every use of a node obtained through a child/sibling link - recursion, text capture - is dominated by the not-AttributeNode edge of a test of that node's Type.",
 		NotDecided: "every navigation method's agreement with DOM semantics (MoveToNext/Previous/First/Child are only covered through the invariant they assume), document order, positional predicates, namespace prefix resolution, the xpath engine itself; trees built by caller-supplied readers.",
 		Trusted:    append([]string{"antchfx/xpath drives the navigator only through the xpath.NodeNavigator interface", "encoding/xml reports all attributes of an element in its StartElement token"}, commonTrusted...),
 		Run:        runC11,
@@ -83,8 +83,8 @@ func runC11(c *core.Ctx) {
 		}
 		return false
 	}
-	// a NodeType value is well-formed if it is a declared constant, a parameter (checked at the callers) or a
-	// phi of those
+	// a NodeType value is well-formed if it is a declared constant, a parameter (checked at the callers), the Type of
+	// an existing node (checked at the stores into Node.Type) or a phi of those
 	var wellFormed func(v ssa.Value, d int) bool
 	wellFormed = func(v ssa.Value, d int) bool {
 		switch x := v.(type) {
@@ -92,6 +92,9 @@ func runC11(c *core.Ctx) {
 			return declared(x)
 		case *ssa.Parameter:
 			return true
+		case *ssa.UnOp:
+			fld, fa := c04FieldLoad(x)
+			return fa != nil && fld == e.typeFld
 		case *ssa.Phi:
 			if d > 4 {
 				return false
@@ -411,33 +414,77 @@ func runC11(c *core.Ctx) {
 				continue
 			}
 			navs++
-			// constants the node's type is compared with
-			covered := map[string]*ssa.BinOp{}
-			for _, b := range m.Blocks {
-				for _, in := range b.Instrs {
-					bo, ok := in.(*ssa.BinOp)
-					if !ok || bo.Op != token.EQL {
-						continue
-					}
-					for _, pair := range [][2]ssa.Value{{bo.X, bo.Y}, {bo.Y, bo.X}} {
-						k, ok := pair[1].(*ssa.Const)
-						if !ok || k.Value == nil || !isNT(k.Type()) {
-							continue
+			// constants the node's type is compared with: in the method itself, or in a repository helper that the
+			// node's Type is handed to (parameter binding, bounded depth)
+			type cmpSite struct {
+				bo *ssa.BinOp
+				fn *ssa.Function
+			}
+			covered := map[string]cmpSite{}
+			type frame struct {
+				fn     *ssa.Function
+				params map[*ssa.Parameter]bool
+			}
+			isNodeType := func(fr frame, v ssa.Value) bool {
+				if ct, ok := v.(*ssa.ChangeType); ok && isNT(ct.X.Type()) {
+					v = ct.X
+				}
+				if p, ok := v.(*ssa.Parameter); ok {
+					return fr.params[p]
+				}
+				f, fa := c04FieldLoad(v)
+				return f == e.typeFld && fa != nil
+			}
+			seenFn := map[*ssa.Function]bool{}
+			var scan func(fr frame, depth int)
+			scan = func(fr frame, depth int) {
+				if seenFn[fr.fn] {
+					return
+				}
+				seenFn[fr.fn] = true
+				for _, b := range fr.fn.Blocks {
+					for _, in := range b.Instrs {
+						switch x := in.(type) {
+						case *ssa.BinOp:
+							if x.Op != token.EQL {
+								continue
+							}
+							for _, pair := range [][2]ssa.Value{{x.X, x.Y}, {x.Y, x.X}} {
+								k, ok := pair[1].(*ssa.Const)
+								if !ok || k.Value == nil || !isNT(k.Type()) || !isNodeType(fr, pair[0]) {
+									continue
+								}
+								if _, dup := covered[k.Value.ExactString()]; !dup || fr.fn == m {
+									covered[k.Value.ExactString()] = cmpSite{x, fr.fn}
+								}
+							}
+						case *ssa.Call:
+							g := x.Call.StaticCallee()
+							if x.Call.IsInvoke() || g == nil || len(g.Blocks) == 0 || depth >= 3 || core.FuncPkg(g) != e.idr || len(g.Params) != len(x.Call.Args) {
+								continue
+							}
+							sub := frame{g, map[*ssa.Parameter]bool{}}
+							for i, a := range x.Call.Args {
+								if isNT(a.Type()) && isNodeType(fr, a) {
+									sub.params[g.Params[i]] = true
+								}
+							}
+							if len(sub.params) > 0 {
+								scan(sub, depth+1)
+							}
 						}
-						if f, fa := c04FieldLoad(pair[0]); f != e.typeFld || fa == nil {
-							continue
-						}
-						covered[k.Value.ExactString()] = bo
 					}
 				}
 			}
+			scan(frame{m, nil}, 0)
 			for _, kc := range consts {
 				key := core.FuncKey(m) + " handles idr." + kc.name
-				bo := covered[kc.val.ExactString()]
-				if bo == nil {
+				site, has := covered[kc.val.ExactString()]
+				if !has {
 					c.Bad("R11b", key, m.Pos(), "the navigator's NodeType switch has no case for this node type: xpath evaluation over a tree containing such a node panics or misclassifies it")
 					continue
 				}
+				bo := site.bo
 				// the equal edge must reach a return (not only the trailing panic)
 				good := false
 				for _, u := range core.Referrers(bo) {
@@ -450,6 +497,21 @@ func runC11(c *core.Ctx) {
 							}
 						}
 					}
+				}
+				if good && site.fn != m {
+					// the case lives in a helper: that its return makes the method itself return (and not panic on a
+					// "not found" result) is decided by interpreting the method with the cursor on a node of this type
+					kv, exact := constant.Int64Val(kc.val)
+					returns, decided, why := false, false, "NodeType constant is not an integer"
+					if exact {
+						returns, decided, why = c11navNodeTypeReturns(c, m, kv)
+					}
+					if !decided {
+						c.Unknown("R11b", key, core.InstrPos(bo), "case present in "+core.FuncKey(site.fn)+", but whether "+core.FuncKey(m)+" returns for it could not be followed: "+why)
+						continue
+					}
+					c.Check(returns, "R11b", key, core.InstrPos(bo), "case present in "+core.FuncKey(site.fn)+" and "+core.FuncKey(m)+" returns an xpath node type for it", "case present in "+core.FuncKey(site.fn)+", but "+core.FuncKey(m)+" panics for this node type")
+					continue
 				}
 				c.Check(good, "R11b", key, core.InstrPos(bo), "case present and returns an xpath node type", "case present but never returns")
 			}
@@ -500,12 +562,27 @@ func c11RuleC(e *c04Env, attrVal constant.Value, ntType types.Type) {
 		c.Unresolved("R11c", "(*idr.Node).InnerText", "exported method not found")
 		return
 	}
+	// InnerText, its closures, and the functions of package idr it hands the traversal to (statically resolved calls,
+	// transitively): the traversal may live in a recursive helper method / package function
 	var fns []*ssa.Function
+	seenFn := map[*ssa.Function]bool{}
 	var collect func(f *ssa.Function)
 	collect = func(f *ssa.Function) {
+		if f == nil || seenFn[f] || len(f.Blocks) == 0 {
+			return
+		}
+		seenFn[f] = true
 		fns = append(fns, f)
 		for _, a := range f.AnonFuncs {
 			collect(a)
+		}
+		for _, ci := range core.Calls(f) {
+			if ci.Common().IsInvoke() {
+				continue
+			}
+			if g := ci.Common().StaticCallee(); g != nil && core.FuncPkg(g) == e.idr {
+				collect(g)
+			}
 		}
 	}
 	collect(inner)
